@@ -3,7 +3,8 @@
 M  AStar.tla: every crossable/non-crossable layout x every (start, goal) x connectivity on small grids,
    invariants ChainOK, CostOptimal, AllNaNIffUnreachable, ClosedAreFinal, OpenSound, ParentOK (+ negative
    twins); PixelId_MC.tla: coordinate -> cell and snapping algorithms against nearest-centre / nearest
-   crossable (the variants the library uses today are the rejected twins); Surd_Check.tla: the exact
+   crossable (`round` / `infinit` = the code since fixes 1c57f27 / a4d4ad0; the pre-fix variants `trunc` /
+   `maxinit` are rejected twins); Surd_Check.tla: the exact
    order on a + b sqrt2 + sqrt n against 80-digit arithmetic.
 R  the same complete input space through the real a_star_search (compiled): AStar_Trace.tla judges every
    observed path image; in interpreted mode every _min_cost_pixel_id call is logged with the complete
@@ -98,19 +99,19 @@ def centre(ax, i):
     return ax["o"] + i * ax["s"]
 
 
-def layout_jobs(H, W, conns, events=False, snap=0, tag="", desc=False, stride=1, phase=0):
-    """every layout x every (start, goal) x connectivity; points at the cell centres of unit axes"""
+def layout_jobs(H, W, conns, events=False, snap=0, tag="", desc=False, keep=1, of=1, seed=0):
+    """every layout x every (start, goal) x connectivity; points at the cell centres of unit axes.
+    keep/of < 1: a seeded pseudo-random keep/of fraction of that space (quick tier)"""
     yax, xax = unit_axis(H, desc), unit_axis(W)
+    pick = random.Random("%s|%d|%d|%d|%d" % (tag, H, W, seed, of))
     jobs = []
-    k = 0
     for bits in itertools.product([0, 1], repeat=H * W):
         cross = [list(bits[r * W:(r + 1) * W]) for r in range(H)]
         style = sum(bits) % 3
         for s in range(H * W):
             for g in range(H * W):
                 for conn in conns:
-                    k += 1
-                    if (k + phase) % stride:
+                    if of > 1 and pick.randrange(of) >= keep:
                         continue
                     jobs.append(mkjob(H, W, cross, conn, yax, xax,
                                       (centre(yax, s // W), centre(xax, s % W)),
@@ -159,13 +160,6 @@ def maze(rng, H, W):
     return cross
 
 
-# coordinate systems whose centres and "+0.3 step away from the origin" points are safe for any
-# conversion rule that is right on exactly representable quotients
-SAFE_AXES = [lambda n: {"den": 1, "o": 0, "s": 1}, lambda n: {"den": 1, "o": n - 1, "s": -1},
-             lambda n: {"den": 1, "o": -100, "s": 30}, lambda n: {"den": 2, "o": 7, "s": 4},
-             lambda n: {"den": 4, "o": -3, "s": 1}, lambda n: {"den": 1, "o": 30 * (n - 1) + 5, "s": -30}]
-
-
 def maze_jobs(rng, n, sizes, events=False):
     jobs = []
     for _ in range(n):
@@ -181,28 +175,17 @@ def maze_jobs(rng, n, sizes, events=False):
             g = max(cr, key=lambda p: (p[0] + p[1], p[0]))
             if rng.random() < 0.5:
                 s, g = g, s
-        yax, xax = rng.choice(SAFE_AXES)(H), rng.choice(SAFE_AXES)(W)
+        _, (oy, sy), _ = rng.choice(COORD_SYSTEMS)
+        _, _, (ox, sx) = rng.choice(COORD_SYSTEMS)
         snapS, snapG = (int(rng.random() < 0.25), int(rng.random() < 0.25))
         if snapS or snapG:        # nearest-in-pixel-space = nearest-in-coordinate-space only for square cells
-            xax = dict(yax, o=yax["o"] if yax["s"] > 0 else yax["o"] + yax["s"] * (H - 1))
-            xax["s"] = abs(yax["s"])
-        # 10 * den so that +-0.3 step is exact
-        fy = {"den": yax["den"] * 10, "o": yax["o"] * 10, "s": yax["s"] * 10}
-        fx = {"den": xax["den"] * 10, "o": xax["o"] * 10, "s": xax["s"] * 10}
+            sx = abs(sy)
+        fy, fx = fine_axis(oy, sy), fine_axis(ox, sx)      # 0.3 * step is an integer numerator
 
         def pt(cell):
-            py, px = centre(fy, cell[0]), centre(fx, cell[1])
-            u = rng.random()
-            if u < 0.35:      # away from the origin by 0.3 step (|p - o| grows)
-                py += 3 * fy["s"] // 10 * (1 if cell[0] > 0 or rng.random() < 0.5 else -1)
-            elif u < 0.45:    # towards the origin
-                py -= 3 * fy["s"] // 10
-            u = rng.random()
-            if u < 0.35:
-                px += 3 * fx["s"] // 10 * (1 if cell[1] > 0 or rng.random() < 0.5 else -1)
-            elif u < 0.45:
-                px -= 3 * fx["s"] // 10
-            return (py, px)
+            # centre, or displaced by 0.3 step in either direction on either axis
+            return (centre(fy, cell[0]) + rng.choice([0, 0, 3, -3]) * fy["s"] // 10,
+                    centre(fx, cell[1]) + rng.choice([0, 0, 3, -3]) * fx["s"] // 10)
         conn = rng.choice([4, 8, 8])
         dtype = rng.choice([None, None, None, "float32"])
         jobs.append(mkjob(H, W, cross, conn, fy, fx, pt(s), pt(g), snapS, snapG, events=events, tag="maze",
@@ -284,7 +267,7 @@ def snap_jobs(shapes):
 
 # ----------------------------------------------------------------------------- judging
 def strip(case):
-    return {k: v for k, v in case.items() if k not in ("job", "raw", "tag", "pix", "error", "same_input")}
+    return {k: v for k, v in case.items() if k not in ("job", "raw", "tag", "error", "same_input")}
 
 
 class Tally:
@@ -351,7 +334,7 @@ def report(ctx, tally, key, clause, case, what):
         ctx.known_hits[key] = ctx.known_hits.get(key, 0) + 1
 
 
-def process(ctx, tally, groups, name, interp=False, parallel=8, chunk=40000, flush_at=120000):
+def process(ctx, tally, groups, name, interp=False, chunk=40000, flush_at=120000):
     """groups = [(kind, jobs)]: run the jobs through the real code (one worker pool per flush: every worker
     process pays the import and the JIT compilation once), let TLC judge the observations"""
     pend = []
@@ -362,7 +345,9 @@ def process(ctx, tally, groups, name, interp=False, parallel=8, chunk=40000, flu
         del pend[:]
         if not jobs:
             return
-        cases = run_real(ctx, jobs, interp)
+        # few worker processes / JVMs for small batches: every process pays import + JIT (~5 CPU-s) once
+        nproc = 16 if len(jobs) > 100000 else (8 if len(jobs) > 8000 else 4)
+        cases = run_real(ctx, jobs, interp, nproc)
         keep = [i for i, c in enumerate(cases) if not c.get("skipped")]
         if len(keep) < len(jobs):
             ctx.note("%d jobs were not executed: calls kept hanging in the worker processes" % (len(jobs) - len(keep)))
@@ -371,7 +356,7 @@ def process(ctx, tally, groups, name, interp=False, parallel=8, chunk=40000, flu
             part, pk, pj = cases[lo:lo + chunk], kinds[lo:lo + chunk], jobs[lo:lo + chunk]
             good = [i for i, c in enumerate(part) if "error" not in c]
             v = ctx.judge("AStar_Trace", [strip(part[i]) for i in good], name="%s_%d" % (name, ctx._n),
-                          stateful=True, workers=2, parallel=parallel)
+                          stateful=True, workers=4, parallel=max(1, min(4, len(good) // 8000)))
             verdicts = {good[k]: cl for k, cl in v.items()}
             extra = {good[k]: ctx.judge_extra.get(k) for k in v}
             ctx.judge_extra.clear()
@@ -391,16 +376,16 @@ def process(ctx, tally, groups, name, interp=False, parallel=8, chunk=40000, flu
     flush()
 
 
-def run_real(ctx, jobs, interp, rounds=3):
+def run_real(ctx, jobs, interp, nproc=16, rounds=3):
     """all jobs through worker processes; jobs a process skipped because an earlier call of it never returned
     are run again in fresh processes (a few rounds)"""
     env = {"NUMBA_DISABLE_JIT": "1"} if interp else None
-    cases = core.run_jobs("astar_worker", jobs, env=env)
+    cases = core.run_jobs("astar_worker", jobs, nproc=nproc, env=env)
     for _ in range(rounds - 1):
         todo = [i for i, c in enumerate(cases) if c.get("skipped")]
         if not todo:
             break
-        again = core.run_jobs("astar_worker", [jobs[i] for i in todo], env=env)
+        again = core.run_jobs("astar_worker", [jobs[i] for i in todo], nproc=nproc, env=env)
         for i, c in zip(todo, again):
             cases[i] = c
     return cases
@@ -483,26 +468,29 @@ def run(ctx):
             coverage=(H * W == 9 and ctx.tier == "thorough"))
     ctx.model_check("AStar", dict(spec="FairSpec", invariants=["TypeOK"], properties=["Termination"],
                                   constants=dict(H=2, W=3, CONNS={4, 8}, MUT="none")), "astar_2x3_termination",
-                    workers=4)
+                    workers=2)
     for mut, inv in TWINS:
         # smallest grids on which TLC rejects the twin (hsquared survives every 2x3 layout)
-        H, W, conns = (2, 4, {8}) if mut == "hsquared" else (2, 3, {4, 8})
+        H, W = (2, 4) if mut == "hsquared" else (2, 3)
         ctx.model_check("AStar", dict(spec="Spec", invariants=inv, constants=dict(
-            H=H, W=W, CONNS=conns, MUT=mut)), "neg_" + mut, workers=2, expect="violation")
+            H=H, W=W, CONNS={8}, MUT=mut)), "neg_" + mut, workers=1, expect="violation")
     ctx.exhaustive = True
     run_code(ctx, tally, rng)
 
 
 def run_code(ctx, tally, rng):
     # ---- R + T through the compiled public function
+    # quick: a seeded third of the 3x3 space (thorough: all of it, and 2x4, 2x5)
     rgrids = ctx.pick([(3, 3)], [(3, 3), (2, 4), (2, 5)])
-    groups = [("R", layout_jobs(H, W, (4, 8), tag="replay_layouts", desc=(H == 2))) for (H, W) in rgrids]
-    # snapping on the complete 3x3 space
-    groups.append(("R-snap", layout_jobs(3, 3, (8,), snap=1, tag="replay_snap", stride=ctx.pick(4, 1),
-                                         phase=ctx.seed)))
+    k, of = ctx.pick((1, 3), (1, 1))
+    groups = [("R", layout_jobs(H, W, (4, 8), tag="replay_layouts", desc=(H == 2), keep=k, of=of, seed=ctx.seed))
+              for (H, W) in rgrids]
+    # snapping on the 3x3 space (quick: a seeded twelfth)
+    k, of = ctx.pick((1, 12), (1, 1))
+    groups.append(("R-snap", layout_jobs(3, 3, (8,), snap=1, tag="replay_snap", keep=k, of=of, seed=ctx.seed)))
     # beyond the exhaustive scope
     sizes = [(4, 4), (4, 6), (5, 5), (6, 5), (5, 7), (7, 7), (6, 6), (3, 7)]
-    groups.append(("T-mazes", maze_jobs(rng, ctx.pick(600, 12000), sizes)))
+    groups.append(("T-mazes", maze_jobs(rng, ctx.pick(500, 12000), sizes)))
     cj = coord_jobs(4, 5, COORD_SYSTEMS)
     if ctx.tier == "thorough":
         cj += coord_jobs(4, 5, COORD_SYSTEMS, conn=4,
@@ -513,9 +501,9 @@ def run_code(ctx, tally, rng):
                                                 [(3, 3), (2, 5), (4, 5), (5, 5), (2, 7), (6, 4)]))))
     process(ctx, tally, groups, "compiled")
 
-    # ---- step level: every pop of the interpreted search against the model
-    groups = [("R-steps", layout_jobs(3, 3, (4, 8), events=True, tag="replay_steps", stride=ctx.pick(12, 1),
-                                      phase=ctx.seed))]
+    # ---- step level: every pop of the interpreted search against the model (quick: a seeded 1/32 of 3x3)
+    k, of = ctx.pick((1, 32), (1, 1))
+    groups = [("R-steps", layout_jobs(3, 3, (4, 8), events=True, tag="replay_steps", keep=k, of=of, seed=ctx.seed))]
     if ctx.tier == "thorough":
         groups.append(("R-steps", layout_jobs(2, 4, (4, 8), events=True, tag="replay_steps", desc=True)))
     groups.append(("T-steps", maze_jobs(rng, ctx.pick(60, 1500), [(3, 4), (4, 3), (2, 6)], events=True)))
